@@ -5,6 +5,16 @@ R08-a format_file pipeline order on one buffer · R08-b newline-style mapping ta
 from absint import explore, vkey, variant_name, TooManyPaths
 from common import short
 
+import re
+
+
+def referent_place(k):
+    """the place behind a value that was renamed by the havoc of a `&mut` argument: `mut:_8.buffer@callee#0` and
+    `mut:_8@callee#0.buffer` both denote the place `_8.buffer` (the MIR optimisation level decides which form appears)"""
+    m = re.match(r"^mut:([^@]+)@.*?#\d+((?:\.[A-Za-z_0-9]+)*)$", k)
+    return (m.group(1) + m.group(2)) if m else k
+
+
 PIPE = ["format_separate_mod", "append_newline", "format_lines", "apply_newline_style", "handle_formatted_file"]
 
 
@@ -49,10 +59,11 @@ def run(ctx):
             bufs = []
             for e in effs[1:4]:
                 arg = e.args[0] if e.name.rsplit("::", 1)[-1] != "apply_newline_style" else e.args[1]
-                bufs.append(vkey(arg))
+                bufs.append(referent_place(vkey(arg)))
             same = len(set(bufs)) == 1 and bufs[0].endswith(".buffer")
             last = vkey(effs[4].args[3]) if len(effs[4].args) > 3 else ""
-            emitted_ok = "to_owned(" in last and ".buffer" in last
+            m = re.search(r"to_owned\((.*)\)$", last)
+            emitted_ok = bool(m) and referent_place(m.group(1)) == bufs[0]
             if not same or not emitted_ok:
                 r.violation(A, "format_file: stages do not share the visitor's buffer",
                             "append_newline / format_lines / apply_newline_style operate on %s and the emitted text is %s" % (
